@@ -19,7 +19,12 @@ pointer differs, or where Account.layout disagrees with the extents used.
     cases(seed, n) -> n histories (boundary ones first, then random ones drawn from `seed`)
     render(case)   -> Coq term
 
-usage: /venv/bin/python /verif/tools/master_cases.py SEED N [OUTDIR]   (writes shards of <= 60 cases, S<k>.v)
+harness use (like harness/props/rrplaceleaf.py):
+    common.coq_bad_cases('master', ['From PV.Model Require Import Master.'], [], 'ms_case',
+                         [render(c) for c in cases(seed, n)], 'bad_master_cases 0', shard=60)
+
+usage: /venv/bin/python /verif/tools/master_cases.py SEED N [OUTDIR]   (writes shards of <= 60 cases, S<k>.v;
+       check each with  cd /verif/coq && coqc -q -Q theories PV OUTDIR/S<k>.v  -- it must print `= []`)
 """
 import io
 import os
